@@ -288,7 +288,9 @@ class Ctx:
             self.oblige("extract:/repo -> Crng/Gen", "tie-A", ok, msg)
             okh, msgh = build_harness()
             self.oblige("harness builds against /repo (-tags verif)", "tie-B", okh, msgh)
-        return ok and okh
+            okd, failing, text = lake_build(["driver"])
+            self.oblige("Lean driver (executable model) builds", "tie-B", okd, "\n".join("%s:%d: %s" % f for f in failing[:8]) or text[-800:])
+        return ok and okh and okd
 
     def lean(self, modules, theorems, ties=()):
         """kernel-check `modules` (property theorems) and the regenerated obligations `ties`
@@ -326,10 +328,13 @@ class Ctx:
 
     # ---- correspondence
     def stream(self, name, sub, cases, harness_args=(), driver_args=None, driver_sub=None,
-               monitor=None, canon=None, timeout=600, nontrivial=None, classify=None, model=True, shrink=True):
+               monitor=None, canon=None, timeout=600, nontrivial=None, classify=None, model=True, shrink=True, spec_exact=False, removable=None):
         """cases: list of (case_id:str, [lines]). Runs the real code (harness `sub`) and, when
         model=True, the Lean model (driver `driver_sub` or `sub`) on the same input and compares per case.
         monitor(case_lines, real_out_lines) -> None | str is a model-free oracle for the property.
+        spec_exact=True declares that the compared outputs are exactly the observables the property theorems fix
+        (e.g. which routes received a line): a disagreement on such a stream is then a failing input for the
+        property itself (expected = what the proved model requires), not merely a broken correspondence.
         nontrivial(case_lines, real_out_lines) -> hashable key | None counts distinct non-trivial cases.
         classify(case_lines, real_out_lines) -> str feeds the outcome histogram."""
         t0 = time.time()
@@ -372,7 +377,7 @@ class Ctx:
                 if err:
                     stat["monitor_failures"] += 1
                     if stat["monitor_failures"] <= 3:
-                        wl = self.shrink_case(sub, harness_args, lines, lambda ls, ro: monitor(ls, ro) is not None, timeout) if shrink else lines
+                        wl = self.shrink_case(sub, harness_args, lines, lambda ls, ro: monitor(ls, ro) is not None, timeout, removable=removable) if shrink else lines
                         self.problem("property-monitor", name, wl, err, True)
             if model:
                 m = modelout.get(cid)
@@ -384,7 +389,13 @@ class Ctx:
         if firstdiff is not None:
             cid, lines, r, m, why = firstdiff
             d = why or first_difference(canon(r) if canon else r, (canon(m) if canon and m is not None else m))
-            self.problem("correspondence", name, lines, "case %s: %s" % (cid, d), False, real=r, model=m)
+            if spec_exact and r is not None and m is not None and shrink:
+                def differs(ls, ro):
+                    rc2, so2, _ = run_side(DRIVER, [driver_sub or sub] + list(driver_args if driver_args is not None else harness_args), "#case s\n" + "\n".join(ls) + "\n", 60)
+                    mo = split_cases(so2).get("s")
+                    return mo is not None and (canon(mo) if canon else mo) != (canon(ro) if canon else ro)
+                lines = self.shrink_case(sub, harness_args, lines, differs, timeout, removable=removable)
+            self.problem("correspondence", name, lines, "case %s: %s" % (cid, d), bool(spec_exact and r is not None), real=r, model=m)
         if len(self.samples) < 6 and cases:
             cid, lines = cases[min(len(cases) - 1, 1)]
             self.samples.append({"stream": name, "input": lines[:12], "real_output": (real.get(cid) or [])[:8]})
@@ -402,9 +413,11 @@ class Ctx:
         log("  stream %-28s cases=%-6d diffs=%d monitor_fail=%d %.1fs" % (name, len(cases), stat["diffs"], stat["monitor_failures"], stat["wall_s"]))
         return real, modelout
 
-    def shrink_case(self, sub, harness_args, lines, bad, timeout, budget=40):
-        """greedy delta-debugging on the lines of one case against the real code; keeps line 0 (cfg)"""
+    def shrink_case(self, sub, harness_args, lines, bad, timeout, budget=40, removable=None):
+        """greedy delta-debugging on the lines of one case against the real code; keeps line 0 (cfg) and every
+        line for which removable(line) is False; a candidate on which the harness dies is never accepted"""
         cur = list(lines)
+        removable = removable or (lambda l: True)
         n = 2
         tries = 0
         while len(cur) > 2 and tries < budget:
@@ -412,12 +425,17 @@ class Ctx:
             reduced = False
             i = 1
             while i < len(cur) and tries < budget:
+                if not all(removable(l) for l in cur[i:i + chunk]):
+                    i += 1 if chunk == 1 else chunk
+                    if chunk > 1 and i >= len(cur):
+                        break
+                    continue
                 cand = cur[:i] + cur[i + chunk:]
                 tries += 1
                 rc, so, se = run_side(HARNESS, [sub] + list(harness_args), "#case s\n" + "\n".join(cand) + "\n", min(timeout, 60))
                 ro = split_cases(so).get("s")
                 try:
-                    isbad = ro is not None and bad(cand, ro)
+                    isbad = rc == 0 and ro is not None and bad(cand, ro)
                 except Exception:
                     isbad = False
                 if isbad:
